@@ -24,7 +24,7 @@ SUM=$(grep -E "^\s*Summary" $OUT/.suite.log | tail -1)
 cp $DEMO $OUT/demo.rs
 cat > $OUT/meta.json <<JSON
 {"seed": "$ID", "property": "$PROP", "base_commit": "$(git -C /repo rev-parse --short HEAD)",
- "needs_to_manifest": "$NEEDS",
+ "needs_to_manifest": "$(echo $NEEDS | tr -d '"' | tr '"' "'")",
  "confirmed": {"demo_passes_without_change": $([ $W -eq 0 ] && echo true || echo false), "demo_fails_with_change": $([ $F -ne 0 ] && echo true || echo false), "existing_suite_passes_with_change": $([ $S -eq 0 ] && echo true || echo false), "suite_summary": "$(echo $SUM | tr -d '"')"},
  "ran": ["cargo nextest run -p quil-rs --test $DN --offline (without change)", "git apply patch.diff", "cargo nextest run -p quil-rs --test $DN --offline (with change)", "cargo nextest run --workspace --no-fail-fast --test-threads 8 --offline (with change, demo removed)"]}
 JSON
